@@ -7,10 +7,15 @@ mutations) until the controller lets it take that step.  No change to the
 repository is needed.  For the in-memory store, which raises no audit events,
 gates are placed by wrapping the dulwich MemoryRepo methods.
 """
+import contextvars
 import threading
 import time
 
 from . import fsmon
+
+# which worker a thread acts for: asyncio.to_thread copies the context of the request that
+# asked for it, so pool threads doing file-system work on behalf of a worker are gated too
+_WORKER = contextvars.ContextVar("verif_sched_worker", default=None)
 
 
 class Scheduler(fsmon.Monitor):
@@ -29,8 +34,8 @@ class Scheduler(fsmon.Monitor):
 
     # --- hook side -----------------------------------------------------------
     def on_event(self, event, paths, write):
-        w = self.tid2w.get(threading.get_ident())
-        if w is None or self.free_run:
+        w = self.tid2w.get(threading.get_ident()) or _WORKER.get()
+        if w is None or self.free_run or w not in self.state:
             return
         if not self.relevant(paths):
             return
@@ -75,6 +80,7 @@ class Scheduler(fsmon.Monitor):
     def spawn(self, w, fn):
         def body():
             self.tid2w[threading.get_ident()] = w
+            _WORKER.set(w)
             try:
                 self.results[w] = ("ok", fn())
             except BaseException as exc:   # noqa
